@@ -61,7 +61,19 @@ class C08(ProgramProperty):
         return {'base': case['base'][:200], 'variant': case['variant'][:300], 'mode': case['mode']}
 
     def check(self, case, ctx):
-        sut = ctx.sut('A')
+        # layout must not matter in any feature configuration: a third of the pairs also go through the full-lexer build,
+        # where comments and line breaks inside brackets are tokens (and pass through the soft-keyword look-ahead)
+        import zlib
+        f = self.check_cfg(case, ctx, 'A')
+        if f is None and zlib.crc32(case['variant'].encode('utf-8')) % 3 == 0:
+            ctx.count('also_in_full_lexer_build')
+            f = self.check_cfg(case, ctx, 'C')
+            if f is not None:
+                f.signature += ':C'
+        return f
+
+    def check_cfg(self, case, ctx, cfg):
+        sut = ctx.sut(cfg)
         a = sut.call('parse', src=case['base'], mode=case['mode'])
         b = sut.call('parse', src=case['variant'], mode=case['mode'], k=case.get('k', 0))
         for name, r in (('base', a), ('variant', b)):
@@ -87,7 +99,7 @@ class C08(ProgramProperty):
         return None
 
     def known(self, case, f, ctx):
-        if 'C08-F1' in open_ids('C08') and f.signature == 'acceptance_differs':
+        if 'C08-F1' in open_ids('C08') and f.signature in ('acceptance_differs', 'acceptance_differs:C'):
             # the region of C01-F2, decided on the reference tree of the rejected text: a statement that is *not* a match
             # statement starts with the word match / case and a ':' outside brackets follows on its line
             from .c01 import C01
